@@ -141,3 +141,27 @@ Print Assumptions C03_cast_code_is_model.
 Theorem C03_escape_code_is_model : forall st x, fn_escapeChars st x = Ret (escape_chars x).
 Proof. exact escape_code_is_model. Qed.
 Print Assumptions C03_escape_code_is_model.
+
+(* ---- the Map encoder itself: marshalMapToXmlIndent (xml.go), translated from the CURRENT sources by go2v (join mode: the
+   code after an if / switch once; the case bodies outside the value universe stand as Crash) and proved equal, in compact mode,
+   to the model encoder [enc] rendered by [emit] that the theorems above are stated with (GenProofs/PureG18.v); escapeChars is
+   the translated one, sort.Sort the model's sort_by_key on the rows *)
+From Mxj Require Import Spec.JsonRT GenProofs.PureG15 GenProofs.PureG18.
+
+Theorem C03_marshal_map_code_is_enc : forall o st, enc_view st o ->
+  forall ind outd xm xmi v f key b i c p m t, vdepth v <= f -> text_dom o v = true ->
+  (forall its, enc o v key = Ok its ->
+     fn_marshalMapToXmlIndent (PureG15.run_escapeChars st) ind outd sort_rows sort_vrows xm xmi f st false b key v i c p m t =
+     Ret (None, (b ++ emit its, i, c, p, m, t))) /\
+  (forall e, enc o v key = Err e ->
+     exists e' b', fn_marshalMapToXmlIndent (PureG15.run_escapeChars st) ind outd sort_rows sort_vrows xm xmi f st false b key v i c p m t =
+                   Ret (Some e', (b', i, c, p, m, t))) /\
+  enc o v key <> Panic.
+Proof. exact marshal_map_code_is_enc_translated. Qed.
+Print Assumptions C03_marshal_map_code_is_enc.
+
+Theorem C03_marshal_map_code_no_crash : forall st ind outd xm xmi v f key b i c p m t,
+  vdepth v <= f -> text_dom (state_opts st) v = true ->
+  fn_marshalMapToXmlIndent (PureG15.run_escapeChars st) ind outd sort_rows sort_vrows xm xmi f st false b key v i c p m t <> Crash.
+Proof. exact marshal_map_code_no_crash. Qed.
+Print Assumptions C03_marshal_map_code_no_crash.
